@@ -266,6 +266,9 @@ func realSnap(s *stack.Snapshot, want []richG) []richG {
 }
 
 func checkPrintCase(res *Result, pc *printCase, rng *rand.Rand, full bool, tag string, opts *stack.Opts) {
+	if res.saturated("C01", "C08", "C02", "C07", "C11") {
+		return
+	}
 	crlf := rng.Intn(3) == 0
 	p := &printer{lx: newLexicon(rng, res), created: map[string]string{}}
 	lines := make([][]byte, len(pc.Lines))
